@@ -88,7 +88,18 @@ pub fn run_case(cx: &mut Ctx) {
     if cx.case % 40 == 7 {
         cx.part.count("oversized_families", 1);
         let f = &mut mfs[0];
-        match rng.below(4) {
+        match if cx.case % 400 == 47 { 9 } else { rng.below(4) } {
+            9 => {
+                // one family above 2 MiB on the wire: a few dozen samples with a ~100 KB label value each
+                let m = f.metrics[0].clone();
+                let big: String = std::iter::repeat("0123456789abcdef").take(6400).collect();
+                for i in 0..(22 + rng.usize_below(6)) {
+                    let mut c = m.clone();
+                    c.labels.push(("blob".to_string(), format!("{}{}", i, big)));
+                    f.metrics.push(c);
+                }
+                cx.part.count("families_above_2_mib", 1);
+            }
             0 => {
                 let m = f.metrics[0].clone();
                 for i in 0..(300 + rng.usize_below(1200)) {
@@ -155,6 +166,10 @@ pub fn run_case(cx: &mut Ctx) {
         let mut bad = mfs.clone();
         let pos = rng.usize_below(bad.len());
         let how = rng.below(2);
+        if rng.chance(1, 4) {
+            // a long, non-ASCII help text on the refused family (error paths that render the family)
+            bad[pos].help = format!("{}{}", "x".repeat(rng.usize_below(8)), "é日".repeat(60 + rng.usize_below(200)));
+        }
         if how == 0 {
             bad[pos].name = String::new();
         } else {
